@@ -103,7 +103,7 @@ def mutate_and_observe(d, gen, repo, tier, avoid):
     feats = FEATS
     del feats[:]
     for path in sorted(glob.glob(os.path.join(VERIF, "corpus", "c06", "*"))) + sorted(glob.glob(os.path.join(VERIF, "corpus", "c01", "*.sam"))):
-        if os.path.basename(path) == "ill_typed":
+        if os.path.basename(path) in ("ill_typed", "ill_typed_modules"):
             continue
         if os.path.isdir(path):      # a program of several modules: the module name is the relative path
             srcs = {}
@@ -190,12 +190,17 @@ def ill_typed_corpus(d, first_id):
     `// fault: <operator kind>`)."""
     import glob
     del ILL[:]
-    for i, path in enumerate(sorted(glob.glob(os.path.join(VERIF, "corpus", "c06", "ill_typed", "*.sam")))):
-        text = open(path).read()
-        kind = re.match(r"// fault: ([\w-]+)", text)
+    paths = sorted(glob.glob(os.path.join(VERIF, "corpus", "c06", "ill_typed", "*.sam"))) + \
+        sorted(glob.glob(os.path.join(VERIF, "corpus", "c06", "ill_typed_modules", "*")))
+    for i, path in enumerate(paths):
+        if os.path.isdir(path):     # several modules; the fault (and its `// fault:` line) is in Main
+            srcs = {f[:-4]: open(os.path.join(path, f)).read() for f in sorted(os.listdir(path)) if f.endswith(".sam")}
+        else:
+            srcs = {"Main": open(path).read()}
+        kind = re.match(r"// fault: ([\w-]+)", srcs["Main"])
         if not kind:
             tool_failure(f"{path}: first line must be `// fault: <operator kind>`")
-        ILL.append({"id": 200000 + i, "origin": "corpus:" + os.path.relpath(path, VERIF), "entry": "Main", "sources": {"Main": text},
+        ILL.append({"id": 200000 + i, "origin": "corpus:" + os.path.relpath(path, VERIF), "entry": "Main", "sources": srcs,
                     "kind": kind.group(1)})
     if not ILL:
         return []
